@@ -367,6 +367,65 @@ func posMonitor(args []string) int {
 		}
 		rep.Sample(map[string]interface{}{"fen": p.StringFen(), "history_len": len(g.Moves)})
 	})
+	// a game as long as the undo history allows (MaxMoves plies) on ONE position object: every successor
+	// compared with the successor of a fresh position, then everything undone again
+	{
+		starts := []string{position.StartFen, "r3k2r/pppppppp/8/8/8/8/PPPPPPPP/R3K2R w KQkq - 0 1"} // nothing can be captured by the shuffling officers
+		p, _ := position.NewPositionFen(starts[int(seed)%len(starts)])
+		startFen := p.StringFen()
+		var fens []string
+		capacityOK := true
+		for ply := 1; ply <= MaxMoves && capacityOK; ply++ {
+			cp := *p
+			lm := w.legalMoves(&cp)
+			var cands []Move
+			for _, m := range lm { // reversible officer shuffles keep the game going
+				if (cp.GetPiece(m.From()).TypeOf() == Knight || cp.GetPiece(m.From()).TypeOf() == Rook) && cp.GetPiece(m.To()) == PieceNone && m.MoveType() == Normal {
+					cands = append(cands, m)
+				}
+			}
+			if len(cands) == 0 { // in check, or the officers are gone: any quiet move, else any move
+				for _, m := range lm {
+					if cp.GetPiece(m.To()) == PieceNone && m.MoveType() == Normal && cp.GetPiece(m.From()).TypeOf() != Pawn {
+						cands = append(cands, m)
+					}
+				}
+			}
+			if len(cands) == 0 {
+				cands = lm
+			}
+			if len(cands) == 0 {
+				break
+			}
+			m := cands[rng.Intn(len(cands))]
+			p.HasCheck() // as a search does at every node: the answer is cached and travels through the undo history
+			prev := p.StringFen()
+			fens = append(fens, prev)
+			fresh, _ := position.NewPositionFen(prev)
+			fresh.DoMove(m)
+			p.DoMove(m)
+			rep.Stats["capacity_game_plies"]++
+			if p.StringFen() != fresh.StringFen() || p.ZobristKey() != fresh.ZobristKey() {
+				rep.Violate("long-game-successor-wrong", map[string]interface{}{"start": startFen, "ply": ply, "move": m.StringUci(), "before": prev},
+					"on the long-lived position: "+p.StringFen()+" ; on a fresh position: "+fresh.StringFen())
+				capacityOK = false
+			}
+		}
+		for k := len(fens) - 1; k >= 0 && capacityOK; k-- {
+			p.UndoMove()
+			if us := p.NextPlayer(); p.PiecesBb(us, King) != 0 && p.HasCheck() != p.IsAttacked(p.KingSquare(us), us.Flip()) {
+				rep.Violate("check-cache-stale", map[string]interface{}{"start": startFen, "ply": k + 1, "fen": p.StringFen()},
+					"after undoing a "+strconv.Itoa(len(fens))+"-ply game back to ply "+strconv.Itoa(k+1)+": HasCheck() disagrees with IsAttacked(king)")
+				break
+			}
+			if p.StringFen() != fens[k] {
+				rep.Violate("undo-does-not-restore", map[string]interface{}{"start": startFen, "ply": k + 1, "fields": "long-game"},
+					"after undoing ply "+strconv.Itoa(k+1)+": "+p.StringFen()+" ; expected "+fens[k])
+				break
+			}
+		}
+		rep.Cases++
+	}
 	return rep.Emit()
 }
 
